@@ -105,7 +105,7 @@ extern "C" void c11_parsing_end()
   ctx._parsing = true;
   ctx.parsingEnd();
   VX_WITNESS();
-  verif_assert(ctx.getSymbol(0) == ta, "C11: variable A is back to its type from before the abandoned text");
-  verif_assert(ctx.getSymbol(1) == tb, "C11: variable B is back to its type from before the abandoned text");
+  verif_assert(ctx.getSymbol(0) == ta, "C11/C02: variable A is back to its type from before the abandoned text");
+  verif_assert(ctx.getSymbol(1) == tb, "C11/C02: variable B is back to its type from before the abandoned text");
   verif_assert(ctx._backed_symbols.empty() && !ctx.parsing(), "C11: no backup is left behind, parsing mode is closed");
 }
